@@ -84,6 +84,14 @@ def plot_params_1d(input_fits, parameter, output_dir=None,
     # Sort alphabetically
     t['MODEL_NAME'] = np.char.strip(t['MODEL_NAME'])
     t.sort('MODEL_NAME')
+
+    # Attach the additional parameters (given for each model name), so that
+    # they can be plotted like the ones from the parameter file
+    for par in additional:
+        if par in t.columns:
+            raise Exception("Parameter {0} already exists in table".format(par))
+        t[par] = np.array([additional[par].get(name, np.nan) for name in t['MODEL_NAME']], dtype=float)
+
     tpos = deepcopy(t)
     if log_x:
         tpos = tpos[tpos[parameter] > 0.]
@@ -94,7 +102,7 @@ def plot_params_1d(input_fits, parameter, output_dir=None,
 
     # Find range of values
     if hist_range is None:
-        pmin, pmax = tpos[parameter].min(), tpos[parameter].max()
+        pmin, pmax = np.nanmin(tpos[parameter]), np.nanmax(tpos[parameter])
     else:
         pmin, pmax = hist_range
 
@@ -147,7 +155,7 @@ def plot_params_1d(input_fits, parameter, output_dir=None,
         info.keep(select_format)
 
         # Get filtered and sorted table of parameters
-        tsorted = info.filter_table(t, additional=additional)
+        tsorted = info.filter_table(t)
 
         from .utils import verif_hook
         if verif_hook.enabled():
